@@ -44,10 +44,18 @@ def _scene(ctx, c, e):
     r = 0.25
     system = System()
     pm = PointMass(float(c["m"]), q0=np.array([0.5, -1.0, r]), u0=np.array([float(c["v"][0]), float(c["v"][1]), 0.0]), name="pm")
-    F = np.array([float(c["Ft"][0]), float(c["Ft"][1]), float(c["Fz"])])
-    system.add(pm, Sphere2Plane(system.origin, pm, mu=mu, r=r, e_N=0.0, e_F=0.0, name="contact"), Force(F, pm, name="F"))
+    ap = np.array(c["ap"], dtype=float)
+    # the spec's force is the one seen in the plane's frame: applied force = F + m ap
+    F = np.array([float(c["Ft"][0]), float(c["Ft"][1]), float(c["Fz"])]) + float(c["m"]) * ap
+    if np.any(ap):
+        from cardillo.discrete import Frame
+        plane = Frame(r_OP=lambda t: 0.5 * ap * t * t, r_OP_t=lambda t: ap * t, r_OP_tt=lambda t: ap, name="table")
+        system.add(plane)
+    else:
+        plane = system.origin
+    system.add(pm, Sphere2Plane(plane, pm, mu=mu, r=r, e_N=0.0, e_F=0.0, name="contact"), Force(F, pm, name="F"))
     rep = {"case": c}
-    key = f"scene:{e['regime']}" + (":mu=0" if mu == 0 else "")
+    key = f"scene:{e['regime']}" + (":mu=0" if mu == 0 else "") + (":accelerating-plane" if np.any(ap) else "")
     try:
         with warnings.catch_warnings(), _quiet():
             warnings.simplefilter("ignore")
@@ -200,6 +208,9 @@ def random_consistent_system(rng):
         system.add(tpi, law); desc.append(type(law).__name__)
     if rng.random() < 0.4:
         system.add(Moment(np.array([0.1, -0.2, 0.3]), links[0][0], name="moment")); desc.append("moment")
+    if rng.random() < 0.6:
+        # an explicitly time-dependent load (the forces at the initial time depend on t0)
+        system.add(Force(lambda t: np.array([0.5 * t, 1.5 - t, 0.25 * t * t]), links[-1][0], B_r_CP=np.array([0.1, 0.0, 0.2]), name="pull")); desc.append("force(t)")
     # balls resting / sliding / flying over the plane z = 0
     for b in range(rng.randint(0, 3)):
         rr = 0.1
@@ -219,7 +230,9 @@ def random_consistent_system(rng):
     return system, desc
 
 
-def residual_record(system, rid):
+def residual_record(system, rid, loose=False):
+    """loose: the assembly used the default solver tolerances (1e-6): only the equations of motion and the bilateral constraints are
+    judged, with a threshold of 1e-3 relative to the force scale (a stale result is off by O(1))"""
     t0, q0, u0 = system.t0, system.q0, system.u0
     ud, la_g, la_gamma, la_c, la_N, la_F = system.u_dot0, system.la_g0, system.la_gamma0, system.la_c0, system.la_N0, system.la_F0
     M = system.M(t0, q0, format="csr")
@@ -229,13 +242,15 @@ def residual_record(system, rid):
     scale = 1.0 + np.max(np.abs(rhs)) if rhs.size else 1.0
     res = M @ ud - rhs
     info = {"eom_residual": float(np.max(np.abs(res))) if res.size else 0.0}
-    tol = 1e-8 * scale
+    tol = (1e-3 if loose else 1e-8) * scale
     eom = info["eom_residual"] <= tol
     gdd = system.g_ddot(t0, q0, u0, ud)
     gamd = system.gamma_dot(t0, q0, u0, ud)
     info["g_ddot"] = float(np.max(np.abs(gdd))) if gdd.size else 0.0
-    gddot = info["g_ddot"] <= 1e-7 * scale
-    gammadot = (float(np.max(np.abs(gamd))) if gamd.size else 0.0) <= 1e-7 * scale
+    gddot = info["g_ddot"] <= (1e-3 if loose else 1e-7) * scale
+    gammadot = (float(np.max(np.abs(gamd))) if gamd.size else 0.0) <= (1e-3 if loose else 1e-7) * scale
+    if loose:
+        return {"id": rid, "eom": bool(eom), "gddot": bool(gddot), "gammadot": bool(gammadot), "signorini": True, "coulomb": True}, info
     # contacts
     sig = True
     coul = True
@@ -318,6 +333,7 @@ def run(ctx):
     # random consistent systems
     nsys = 40 if not ctx.thorough else 400
     recs, infos, descs = [], {}, {}
+    notjudged = {}
     nfail = 0
     for i in range(nsys):
         system, desc = random_consistent_system(rng)
@@ -325,12 +341,37 @@ def run(ctx):
             with warnings.catch_warnings(), _quiet():
                 warnings.simplefilter("ignore")
                 system.assemble(options=_opts())
+        except AssertionError as ex:
+            if "does not converge" in str(ex):
+                # a loud failure of the fixed-point iteration is not a rejection of the initial state (and not silent): not judged here
+                notjudged["fixed point did not converge (loud)"] = notjudged.get("fixed point did not converge (loud)", 0) + 1
+                continue
+            ctx.violation("random:assemble:AssertionError", f"a consistent system was rejected: AssertionError: {ex}; contributions {desc}", {"desc": desc})
+            nfail += 1
+            continue
         except Exception as ex:
             ctx.violation(f"random:assemble:{type(ex).__name__}", f"a consistent system was rejected: {type(ex).__name__}: {ex}; contributions {desc}", {"desc": desc})
             nfail += 1
             continue
         rec, info = residual_record(system, len(recs) + 1)
         recs.append(rec); infos[rec["id"]] = info; descs[rec["id"]] = desc
+        # the same state declared the initial state of a later time: everything the assembly returns belongs to the new t0
+        # (once with the tight options, once without any assemble arguments, i.e. with the default tolerances)
+        for kw, loose in ((dict(options=_opts()), False), ({}, True)):
+            try:
+                with warnings.catch_warnings(), _quiet():
+                    warnings.simplefilter("ignore")
+                    system.set_new_initial_state(system.q0.copy(), system.u0.copy(), t0=system.t0 + 2.0, **kw)
+                rec, info = residual_record(system, len(recs) + 1, loose=loose)
+                recs.append(rec); infos[rec["id"]] = dict(info, history=f"re-initialised with the same state at t0 = {system.t0}" + (" (default options)" if loose else ""))
+                descs[rec["id"]] = desc + ["re-initialised"]
+            except AssertionError as ex:
+                if loose and "does not converge" in str(ex):
+                    notjudged["re-initialisation with default tolerances: fixed point did not converge (loud)"] = notjudged.get("re-initialisation with default tolerances: fixed point did not converge (loud)", 0) + 1
+                    continue
+                ctx.violation("random:reinitialise:AssertionError", f"set_new_initial_state with the unchanged state at a later time raised AssertionError: {ex}; contributions {desc}", {"desc": desc})
+            except Exception as ex:
+                ctx.violation(f"random:reinitialise:{type(ex).__name__}", f"set_new_initial_state with the unchanged state at a later time raised {type(ex).__name__}: {ex}; contributions {desc}", {"desc": desc})
     rejected, rt = runs.batch_validate(ctx, "ConsistentIC", recs, {"Mode": '"trace"'}, "cic_trace") if recs else ({}, r)
     for rid, clause in rejected.items():
         d = descs[rid]
@@ -339,7 +380,7 @@ def run(ctx):
     ctx.log(f"[C16] random consistent systems: {len(recs)} assembled and validated by TLC, {len(rejected)} rejected")
     ctx.coverage = {"states": r.distinct + rt.distinct, "transitions": max(r.generated, 1), "traces_validated_against_impl": len(scenes) + ndec + len(recs),
                     "samples": [{"case": scenes[0]["case"], "expected": scenes[0]["expected"]}, {"random_system": descs.get(1)}],
-                    "exhaustive": ctx.thorough, "scene_regimes": regimes, "decision_cases": ndec, "random_systems": len(recs),
+                    "exhaustive": ctx.thorough, "not_judged": notjudged, "scene_regimes": regimes, "decision_cases": ndec, "random_systems": len(recs),
                     "rule": "lattice: point mass on a plane, m x F (Pythagorean tangential part) x mu x sliding velocity; decision table: 36 realisable fact "
                             "combinations; random: hinged chains (revolute/spherical/rigid) with actuators, force laws in both forms, Maxwell elements and balls "
                             "resting / sliding / separating / flying"}
